@@ -414,6 +414,11 @@ def run(ctx):
                                        "kf": None})
         finally:
             shutil.rmtree(proj, ignore_errors=True)
+    # accepted code reached through imports made in function bodies: the relative forms inside the __init__.py of a sub-package
+    # (shared with the C01 check)
+    from . import c01s, pipeline
+    c01s.run_imports_in_package_init(ctx, res, thorough)
+    pipeline.close_ref()
     for p in list(_accepted_packages):
         if p not in before:
             _accepted_packages.discard(p)
